@@ -662,7 +662,7 @@ def eexist(ctx):
 def check_dominates(ctx):
     f = M(ctx, "MemorizedFunc._is_in_cache_and_valid")
     g = cfg_of(f)
-    chk = [n for n in nodes_of_type(f, ast.If) if any(call_name(c) == "self._check_previous_func_code" for c in calls_in(n.test))]
+    chk = [c for c in calls_in(f) if call_name(c) == "self._check_previous_func_code"]
     ci = [c for c in calls_in(f) if call_name(c) == "self.store_backend.contains_item"]
     if not ci:
         ctx.bad(f, "_is_in_cache_and_valid no longer decides presence through contains_item (output.pkl under its final name): a hit is answered for entries without a result, or a "
@@ -671,16 +671,52 @@ def check_dominates(ctx):
     if not chk:
         ctx.bad(f, "_is_in_cache_and_valid does not check the function's source code: values computed by older code are served", key=MEM + "::MemorizedFunc._is_in_cache_and_valid::code check")
         return
-    t = chk[0]
-    ok = isinstance(t.test, ast.UnaryOp) and isinstance(t.test.op, ast.Not) and t.body and isinstance(t.body[-1], ast.Return) and is_const(t.body[-1].value, False)
-    ctx.check(ok, t, "changed code => not valid (return False)")
-    for c in ci:
-        ctx.check(any(i is t and not pol for (i, _, pol) in g.conditions_at(g.nodes_of(c))), c, "the code check precedes and guards the look-up of the entry")
-    for r in nodes_of_type(f, ast.Return):
-        if is_const(r.value, True):
-            conds = g.conditions_at(g.nodes_of(r))
-            ctx.check(any(i is t and not pol for (i, _, pol) in conds), r, "valid is only answered after the code check passed")
-            ctx.check(any(isinstance(tt, ast.UnaryOp) and any(call_name(c) == "self.store_backend.contains_item" for c in calls_in(tt)) and not pol for (_, tt, pol) in conds), r, "and the entry exists")
+    # decided over the case table (code unchanged?) x (entry present?) x (no callback / accepts / rejects), walking the
+    # function's own CFG (sa/table.py): valid iff all three hold; the entry is looked up only after the code check passed;
+    # a rejecting callback clears the entry; nothing else does
+    from ..table import traces, Unknown
+    import itertools as _it
+    def txt_of(name):
+        cs = [c for c in calls_in(f) if call_name(c) == name]
+        return [str(unparse(c, 400)) for c in cs]
+    k_chk, k_has, k_cb = txt_of("self._check_previous_func_code"), txt_of("self.store_backend.contains_item"), txt_of("self.cache_validation_callback")
+    bad = None
+    n_rows = 0
+    for code_ok, present, cb in _it.product((True, False), (True, False), ("none", "accept", "reject")):
+        env = {"self.cache_validation_callback is None": cb == "none", "self.cache_validation_callback is not None": cb != "none",
+               "self.cache_validation_callback": None if cb == "none" else "<callback>"}
+        for k in k_chk:
+            env[k] = code_ok
+        for k in k_has:
+            env[k] = present
+        for k in k_cb:
+            env[k] = cb == "accept"
+        try:
+            walks = traces(g, env, call_args=("self._check_previous_func_code", "self.store_backend.contains_item", "self.store_backend.clear_item", "self.cache_validation_callback"))
+        except Unknown as e:
+            raise Undecidable("_is_in_cache_and_valid: not understood (%s)" % e)
+        for kind, val, visited, calls in walks:
+            n_rows += 1
+            names_ = [c[0] for c in calls]
+            want = code_ok and present and cb != "reject"
+            what = "code %s, entry %s, callback %s" % ("unchanged" if code_ok else "changed", "present" if present else "absent", cb)
+            if kind != "return" or val is Unknown or bool(val) != want:
+                bad = (f, "%s: _is_in_cache_and_valid answers %s (expected %s): %s" % (what, val if kind == "return" else kind, want,
+                       "values computed by older code / entries without a result are served" if not want else "a valid entry is treated as missing"))
+            elif not code_ok and ("self.store_backend.contains_item" in names_ or "self.store_backend.clear_item" in names_):
+                bad = (f, "%s: the entry is looked up although the code check failed (the check must precede and guard the look-up)" % what)
+            elif "self.store_backend.contains_item" in names_ and "self._check_previous_func_code" in names_ and names_.index("self.store_backend.contains_item") < names_.index("self._check_previous_func_code"):
+                bad = (f, "%s: the entry is looked up before the code check" % what)
+            elif ("self.store_backend.clear_item" in names_) != (code_ok and present and cb == "reject"):
+                bad = (f, "%s: clear_item is %s" % (what, "called" if "self.store_backend.clear_item" in names_ else "not called: a rejected entry stays and is offered again"))
+            if bad:
+                break
+        if bad:
+            break
+    if bad:
+        ctx.bad(bad[0], bad[1], key=MEM + "::MemorizedFunc._is_in_cache_and_valid::validity case table")
+    else:
+        ctx.ok(f, "valid iff code unchanged, entry present and not rejected; look-up guarded by the code check; a rejected entry is cleared (%d walks of the case table)" % n_rows)
     cc = M(ctx, "MemorizedFunc._cached_call")
     gc_ = cfg_of(cc)
     readers = [c for c in calls_in(cc) if call_name(c) in ("self._load_item", "self._get_memorized_result")]
@@ -707,15 +743,6 @@ def check_dominates(ctx):
     rets = nodes_of_type(ck, ast.Return)
     ctx.check(len(rets) == 1 and isinstance(rets[0].value, ast.Call) and call_name(rets[0].value) == "self._is_in_cache_and_valid", rets[0] if rets else ck, "check_call_in_cache answers through _is_in_cache_and_valid")
     # validation callback: falsy => entry cleared, miss
-    clr = [c for c in calls_in(f) if call_name(c) == "self.store_backend.clear_item"]
-    ret_false = [r for r in nodes_of_type(f, ast.Return) if is_const(r.value, False)]
-    okc = bool(clr)
-    for c in clr:
-        at = g.atoms_at(g.nodes_of(c))
-        okc = okc and any(unparse(a) == "self.cache_validation_callback is None" and not pol for (_, a, pol) in at) \
-            and any(isinstance(a, ast.Call) and call_name(a) == "self.cache_validation_callback" and not pol for (_, a, pol) in at) \
-            and g.every_path_from(g.nodes_of(c), g.nodes_of_all(ret_false), None, skip_exc=True)
-    ctx.check(okc, clr[0] if clr else f, "a failing validation callback clears the entry and reports a miss")
 
 
 def diff_wipes(ctx):
